@@ -64,6 +64,7 @@ pub use serde;
 pub use serde_json;
 
 pub mod gen;
+pub mod wire;
 
 #[derive(Clone, Copy, Debug, PartialEq, Eq)]
 pub enum Tier {
